@@ -140,10 +140,13 @@ def run(ctx):
     from harness import scenarios
     work = tempfile.mkdtemp(prefix="c20_")
     try:
-        for i in range(10 if quick else 60):
+        fixed = [([8, 8, 4, 8], 7, False), ([7, 8, 8, 7], 7, False), ([8, 5, 8, 8], 9, True), ([6, 8, 6, 6], 6, False), ([5, 8, 8, 5], 6, True)]
+        for i in range(20 if quick else 80):
             npts = [rng.randint(5, 8), rng.randint(4, 8), rng.randint(4, 8), rng.randint(5, 8)]     # clamped cubic r and v need > 3 points
-            n = rng.choice([2, 3, 4, 5, 7])
+            n = rng.choice([2, 3, 4, 5, 6, 7, 8])
             plot = bool(i % 3)
+            if i < len(fixed):              # process counts at the limit of what the grid sizes allow
+                npts, n, plot = fixed[i]
             cfile = scenarios.write_constants(os.path.join(work, "c%d.json" % i), npts=npts)
             fromfile = None
             if i % 2:                      # the restart set-up on a folder that holds the parameter file only (fresh start in the given layout)
